@@ -705,6 +705,19 @@ func losesNestedType(v cty.Value, ct *TS) bool {
 		if len(es) == 0 {
 			return ct.Elem.HasDyn()
 		}
+		if ct.Elem.K == 'O' || ct.Elem.K == 'T' {
+			// members of a collection are unified after decoding, and for object and tuple
+			// members that works attribute by attribute: one member that carries its full type
+			// gives it to the null ones, so the type is lost only when every member loses it.
+			// (For members that are themselves collections the unification of an empty or null
+			// member with a typed sibling fails on the unchanged tree: part of the known finding.)
+			for _, e := range es {
+				if !losesNestedType(e, ct.Elem) {
+					return false
+				}
+			}
+			return true
+		}
 		for _, e := range es {
 			if losesNestedType(e, ct.Elem) {
 				return true
